@@ -326,4 +326,16 @@ theorem C13_candidates_perm (version : Str) (m : Meta) (vs : List RawValue) :
   refine ⟨_, C13_document_roundtrip version m (some vs), ⟨_, rfl, ?_⟩, rfl, rfl, rfl⟩
   exact sortBy_perm _ vs
 
+/-- **different completions never share a document**: equal texts were written for the same version, messages, no-space
+    characters, usage and (up to order) the same candidates -/
+theorem C13_export_injective (v v' : Str) (m m' : Meta) (vs vs' : Option (List RawValue))
+    (h : marshalExport v m vs = marshalExport v' m' vs') :
+    v = v' ∧ m.messages = m'.messages ∧ m.nospace = m'.nospace ∧ m.usage = m'.usage ∧ wireValues vs = wireValues vs' := by
+  have h1 := C13_document_roundtrip v m vs
+  have h2 := C13_document_roundtrip v' m' vs'
+  rw [h, h2] at h1
+  have := Option.some.inj h1
+  simp only [ExportDoc.mk.injEq] at this
+  exact ⟨this.1.symm, this.2.1.symm, this.2.2.1.symm, this.2.2.2.1.symm, this.2.2.2.2.symm⟩
+
 end Carapace.Props.C13
